@@ -8,7 +8,7 @@
    order of the vertices of a tetrahedron, tie-break between equally long edges).  Clauses named info_* compare with the
    literal result of today's code; they are reported as information only. *)
 EXTENDS KMesh, Json, IOUtils, TLCExt
-VARIABLE i
+VARIABLES i, grpset       \* grpset: the group of the record, generated once per record (TLC re-evaluates definitions at every mention)
 Recs == JsonDeserialize(IOEnv.TRACE_FILE).recs
 Rec == Recs[i]
 T3(s)  == << s[1], s[2], s[3] >>
@@ -24,7 +24,7 @@ TList(s)  == [q \in 1..Len(s) |-> TetOf(s[q])]
 GeoOf(r)  == [n |-> T3(r.n), nd |-> T3(r.nd), L |-> r.L]
 
 KlistClauses ==
-   LET n == T3(Rec.n)  G == GroupOf(Rec.grp)  kl == KList(Rec.out)  GE == IF Rec.sym THEN G ELSE {Id3}
+   LET n == T3(Rec.n)  G == grpset  kl == KList(Rec.out)  GE == IF Rec.sym THEN G ELSE {Id3}
        comp == Compatible(n, G)
        A == Rec.ok /\ comp          \* the property speaks about the grids that the group maps to themselves
    IN
@@ -39,7 +39,7 @@ KlistClauses ==
      info_incompatible_rejected |-> (~comp) => ~Rec.ok,
      info_equals_spec  |-> A => kl = IrreducibleList(n, G, Rec.sym) ]
 DivideClauses ==
-   LET geo == GeoOf(Rec)  G == GroupOf(Rec.grp)  GE == IF Rec.sym THEN G ELSE {Id3}
+   LET geo == GeoOf(Rec)  G == grpset  GE == IF Rec.sym THEN G ELSE {Id3}
        k == FPoint(Rec.parent)  ch == FList(Rec.out) IN
    [ in_model     |-> Divisible(k, geo) /\ Compatible(FineU(geo), G),
      weight_kept  |-> TotalWeight(ch) = k.fac,
@@ -49,7 +49,7 @@ DivideClauses ==
      no_duplicates |-> Rec.sym => NoEquivDup(ch, geo, G),
      info_equals_spec  |-> ch = Children(k, geo, G, Rec.sym) ]
 ExcludeClauses ==
-   LET geo == GeoOf(Rec)  G == GroupOf(Rec.grp)  a == FList(Rec.inp)  b == FList(Rec.out) IN
+   LET geo == GeoOf(Rec)  G == grpset  a == FList(Rec.inp)  b == FList(Rec.out) IN
    [ in_model     |-> Compatible(FineU(geo), G) /\ OldDistinctK(Keys(a, geo, G), Rec.nold),
      weight_kept  |-> TotalWeight(a) = TotalWeight(b),
      same_up_to_symmetry |-> SameClassWeights(a, b, geo, G),
@@ -59,7 +59,7 @@ ExcludeClauses ==
 (* one refinement step: before = K list, ord = the refined points in the order of the loop, after = K list after the
    step (run(): the lists at the hook events UpdateIntegral / Refine; or the harness's copy of the loop of run()) *)
 RefineClauses ==
-   LET geo == GeoOf(Rec)  G == GroupOf(Rec.grp)  GE == IF Rec.sym THEN G ELSE {Id3}
+   LET geo == GeoOf(Rec)  G == grpset  GE == IF Rec.sym THEN G ELSE {Id3}
        a == FList(Rec.before)  b == FList(Rec.after)  ord == [q \in 1..Len(Rec.ord) |-> Rec.ord[q]]
        exp == RefineList(a, ord, geo, G, Rec.sym) IN
    [ in_model     |-> /\ Compatible(FineU(geo), G) /\ Len(ord) >= 1
@@ -99,6 +99,6 @@ Clauses == CASE Rec.fn = "klist" -> KlistClauses
              [] Rec.fn = "tsplit" -> TSplitClauses
              [] Rec.fn = "tgrid" -> TGridClauses
 Report == \A c \in DOMAIN Clauses : Clauses[c] \/ PrintT(<<"BAD", i, c>>)
-RecInit == i \in 1..Len(Recs)
-RecSpec == RecInit /\ [][UNCHANGED i]_i
+RecInit == i \in 1..Len(Recs) /\ grpset = (IF "grp" \in DOMAIN Recs[i] THEN GroupOf(Recs[i].grp) ELSE {Id3})
+RecSpec == RecInit /\ [][UNCHANGED <<i, grpset>>]_<<i, grpset>>
 =============================================================================
